@@ -16,6 +16,7 @@ DECIDES = ('the bounding box is computed from the unweighted control points (KD4
 NOT_DECIDED = ('hull containment itself, clamped end-point interpolation and the length bounds: they follow mathematically from non-negative partition of unity '
                '(C03, numerical) together with the structural facts above, and are not decided here.')
 TECHNIQUE = 'view/kind rule, comparison-orientation rule, cache typestate, index-range rule in polynomial normal form'
+DECIDES += (" BB2: evaluate_bounding_box on points of every order type of the coordinates returns the coordinate-wise extremes; LN2: length_curve is exactly the sum of the chords of consecutive sample points; CB2: a container's box follows its elements; BF3 (shared with C03): basis values are the Cox-de Boor polynomials, summing to one on every span.")
 
 
 def site(fi, node=None):
